@@ -3183,8 +3183,8 @@ def _update_gradient(m: types.Model, d: types.Data, ctx: SolverContext, compact:
         # simultaneously run on the SM. TODO: This factor can be tuned further.
         dim_block = ceil((sm_count * 6 * 256) / m.dof_tri_row.size)
       else:
-        # fall back for CPU
-        dim_block = d.naconmax
+        # fall back for CPU (at least one block: naconmax may be 0)
+        dim_block = max(d.naconmax, 1)
 
       nblocks_perblock = int((d.naconmax + dim_block - 1) / dim_block)
 
